@@ -1,67 +1,92 @@
 (* Correspondence for C20: HopfieldNet(num_cells=N) with the constructor's shuffle scripted,
-   train(P), cpl.evolve(initial, timesteps=T, apply_rule=net.apply_rule, r=net.r).
+   train(P), then one or more cpl.evolve(initial, timesteps=T, apply_rule=net.apply_rule, r=net.r) on the
+   SAME net (the AsynchronousRule object keeps _curr between the calls).
    The model that is compared is the full engine model: evolve_plain (Model/Evolve1D.v) driving
    async_rule1 (Model/Async.v, scripted shuffle oracle) wrapping hopfield_rule1 (Model/Hopfield.v),
-   i.e. exactly the object of Proofs/HopfieldAsync.v.  The direct schedule model hop_evolve
-   ("cell order[(t-1) mod N] is updated to _rule") is evaluated as well and has to agree. *)
+   i.e. exactly the object of Proofs/HopfieldAsync.v, its state threaded from one evolve to the next.
+   The direct schedule model ("cell order[curr] is updated to _rule, curr advances") is evaluated as well
+   and has to agree. *)
 From CPL Require Import Model.Base Model.Rules Model.Engine Model.Evolve1D Model.Async Model.Hopfield.
 Local Open Scope Z_scope.
 
 Inductive case :=
 | CHop (N : nat)                      (* num_cells *)
-       (P : list (list Z))            (* training patterns *)
+       (P : list (list Z))            (* training patterns (of the LAST train call) *)
        (perm : list nat)              (* outcome of the constructor's np.random.shuffle on arange(N) *)
-       (s : list Z)                   (* initial row *)
-       (T : nat)                      (* timesteps *)
+       (pre : list (list Z * nat))    (* earlier evolutions on the same net: (initial row, timesteps) *)
+       (s : list Z)                   (* initial row of the last evolution *)
+       (T : nat)                      (* its timesteps *)
        (obs_r : res nat)              (* net.r *)
        (obs_W : res (list (list Z)))  (* net.W after train *)
-       (obs_rows : res (list (list Z)))   (* the evolved array *)
-       (obs_E2 : list Z).             (* 2E of every returned row, computed in Python from net.W *)
+       (obs_pre : list (res (list (list Z))))   (* the arrays of the earlier evolutions *)
+       (obs_rows : res (list (list Z)))   (* the array of the last evolution *)
+       (obs_E2 : list Z).             (* 2E of every row of the last evolution, computed in Python from net.W *)
 
 Definition sh_of (perm : list nat) : nat -> list nat -> list nat := script_sh 0%nat [perm].
 
-Definition model_W (c : case) : res (list (list Z)) := match c with CHop _ P _ _ _ _ _ _ _ => train P end.
-Definition model_r (c : case) : nat := match c with CHop N _ _ _ _ _ _ _ _ => hopfield_r N end.
+(* consecutive evolutions on one rule object; the script stops at the first exception *)
+Fixpoint evolve_seq (W : list (list Z)) (r : nat) (sh : nat -> list nat -> list nat) (a : astate nat unit)
+         (runs : list (list Z * nat)) : list (res (list (list Z))) :=
+  match runs with
+  | [] => []
+  | (s, T) :: rest =>
+      match evolve_plain (async_rule1 (hopfield_rule1 W r) sh) store_id r a [s] T with
+      | Ok (a', rows) => Ok rows :: evolve_seq W r sh a' rest
+      | Raise e => [Raise e]
+      end
+  end.
+Fixpoint evolve_seq_direct (W : list (list Z)) (r : nat) (order : list nat) (k : nat)
+         (runs : list (list Z * nat)) : list (res (list (list Z))) :=
+  match runs with
+  | [] => []
+  | (s, T) :: rest =>
+      match evolve_fixed [] (sched_step W r order) k [s] T with
+      | Ok (k', rows) => Ok rows :: evolve_seq_direct W r order k' rest
+      | Raise e => [Raise e]
+      end
+  end.
 
-(* through the engine and the AsynchronousRule model *)
-Definition model_rows (c : case) : res (list (list Z)) :=
+Definition model_W (c : case) : res (list (list Z)) := match c with CHop _ P _ _ _ _ _ _ _ _ _ => train P end.
+Definition model_r (c : case) : nat := match c with CHop N _ _ _ _ _ _ _ _ _ _ => hopfield_r N end.
+
+(* through the engine and the AsynchronousRule model: the arrays of all evolutions, the last one last *)
+Definition model_runs (c : case) : res (list (res (list (list Z)))) :=
   match c with
-  | CHop N P perm s T _ _ _ _ =>
+  | CHop N P perm pre s T _ _ _ _ _ =>
       bind (train P) (fun W =>
-        let r := hopfield_r N in
-        bind (evolve_plain (async_rule1 (hopfield_rule1 W r) (sh_of perm)) store_id r
-                (async_init_cells (sh_of perm) (init_order1 N) false tt) [s] T)
-             (fun xr => Ok (snd xr)))
+        Ok (evolve_seq W (hopfield_r N) (sh_of perm)
+              (async_init_cells (sh_of perm) (init_order1 N) false tt) (pre ++ [(s, T)])))
   end.
-
-(* the direct schedule model *)
-Definition model_rows_direct (c : case) : res (list (list Z)) :=
+Definition model_runs_direct (c : case) : res (list (res (list (list Z)))) :=
   match c with
-  | CHop N P perm s T _ _ _ _ =>
-      bind (train P) (fun W => bind (hop_evolve W (hopfield_r N) perm s T) (fun kr => Ok (snd kr)))
+  | CHop N P perm pre s T _ _ _ _ _ =>
+      bind (train P) (fun W => Ok (evolve_seq_direct W (hopfield_r N) perm 0%nat (pre ++ [(s, T)])))
   end.
-
+Definition model_rows (c : case) : res (list (list Z)) :=
+  bind (model_runs c) (fun l => last l (Raise OtherError)).
 Definition model_E2 (c : case) : res (list Z) :=
   bind (model_W c) (fun W => bind (model_rows c) (fun rows => Ok (map (energy2 W) rows))).
 
-Definition model_out (c : case) := (model_r c, model_W c, model_rows c, model_E2 c).
+Definition model_out (c : case) := (model_r c, model_W c, model_runs c, model_E2 c).
+
+Definition runs_eqb := list_eqb (res_eqb_anyexc zgrid_eqb).
 
 (* every model component is evaluated once (vm_compute is call-by-value: the lets are shared) *)
 Definition check_case (c : case) : bool :=
   match c with
-  | CHop N P perm s T obs_r obs_W obs_rows obs_E2 =>
+  | CHop N P perm pre s T obs_r obs_W obs_pre obs_rows obs_E2 =>
       let mW := train P in
       let r := hopfield_r N in
-      let mrows := bind mW (fun W =>
-                     bind (evolve_plain (async_rule1 (hopfield_rule1 W r) (sh_of perm)) store_id r
-                             (async_init_cells (sh_of perm) (init_order1 N) false tt) [s] T)
-                          (fun xr => Ok (snd xr))) in
-      let mdirect := bind mW (fun W => bind (hop_evolve W r perm s T) (fun kr => Ok (snd kr))) in
+      let runs := pre ++ [(s, T)] in
+      let mruns := bind mW (fun W => Ok (evolve_seq W r (sh_of perm)
+                                           (async_init_cells (sh_of perm) (init_order1 N) false tt) runs)) in
+      let mdirect := bind mW (fun W => Ok (evolve_seq_direct W r perm 0%nat runs)) in
+      let mrows := bind mruns (fun l => last l (Raise OtherError)) in
       let mE2 := bind mW (fun W => bind mrows (fun rows => Ok (map (energy2 W) rows))) in
       res_eqb Nat.eqb (Ok r) obs_r
       && res_eqb_anyexc zgrid_eqb mW obs_W
-      && res_eqb_anyexc zgrid_eqb mrows obs_rows
-      && res_eqb_anyexc zgrid_eqb mdirect mrows
+      && res_eqb_anyexc runs_eqb mruns (bind obs_W (fun _ => Ok (obs_pre ++ [obs_rows])))
+      && res_eqb_anyexc runs_eqb mdirect mruns
       && res_eqb_anyexc zlist_eqb mE2 (bind obs_rows (fun _ => Ok obs_E2))
   end.
 
@@ -69,11 +94,11 @@ Definition check_case (c : case) : bool :=
 Lemma check_case_model_out : forall c,
   check_case c =
   match c with
-  | CHop _ _ _ _ _ obs_r obs_W obs_rows obs_E2 =>
+  | CHop _ _ _ _ _ _ obs_r obs_W obs_pre obs_rows obs_E2 =>
       res_eqb Nat.eqb (Ok (model_r c)) obs_r
       && res_eqb_anyexc zgrid_eqb (model_W c) obs_W
-      && res_eqb_anyexc zgrid_eqb (model_rows c) obs_rows
-      && res_eqb_anyexc zgrid_eqb (model_rows_direct c) (model_rows c)
+      && res_eqb_anyexc runs_eqb (model_runs c) (bind obs_W (fun _ => Ok (obs_pre ++ [obs_rows])))
+      && res_eqb_anyexc runs_eqb (model_runs_direct c) (model_runs c)
       && res_eqb_anyexc zlist_eqb (model_E2 c) (bind obs_rows (fun _ => Ok obs_E2))
   end.
-Proof. intros [N P perm s T o1 o2 o3 o4]. reflexivity. Qed.
+Proof. intros [N P perm pre s T o1 o2 o3 o4 o5]. reflexivity. Qed.
